@@ -311,6 +311,14 @@ func (g *seqGen) memoHunt(rounds int) {
 			{Fn: "seed", S: hxs(s), P: hxs(""), Keep: true},
 			{Fn: "seed", S: hxs("mnemonic"), P: hxs(s), Keep: true},
 			{Fn: "seed", S: hxs(""), P: hxs("mnemonic" + s), Keep: true},
+			// the same unsupported Language value in a generating call and then in a check
+			{Fn: "chk", L: int64(70 + k), S: hxs("legal winner thank year wave sausage worth useful legal winner thank yellow")},
+			{Fn: "enc", L: int64(70 + k), E: hx(ent), Keep: true},
+			{Fn: "new", L: int64(70 + k), N: 12, Src: &plan.Src{Data: hx(ent)}},
+			{Fn: "chk", L: int64(70 + k), S: hxs("legal winner thank year wave sausage worth useful legal winner thank yellow")},
+			{Fn: "val", L: int64(-3 - k), S: hxs("legal winner thank year wave sausage worth useful legal winner thank yellow")},
+			{Fn: "enc", L: int64(-3 - k), E: hx(ent)},
+			{Fn: "val", L: int64(-3 - k), S: hxs("legal winner thank year wave sausage worth useful legal winner thank yellow")},
 			{Fn: "str", L: int64(1000 + k)},
 			{Fn: "str", L: int64(1000 + k + 64)},
 			{Fn: "str", L: int64(l)},
